@@ -176,3 +176,25 @@ Proof.
   unfold parse_items. destruct header as [[|c h]|]; intros E; try (inversion E; subst; constructor).
   eapply parse_elements_NoDup; [|exact E]. constructor.
 Qed.
+
+(* ---------------------------------------------------------------- keep-alive connections *)
+Lemma conn_choices_nth enabled hs i :
+  nth_error (conn_choices enabled hs) i = option_map (fun h => server_choice h enabled) (nth_error hs i).
+Proof. unfold conn_choices. apply nth_error_map. Qed.
+
+(* whatever was requested before and after on the same connection *)
+Lemma conn_choices_independent enabled before h after :
+  nth_error (conn_choices enabled (before ++ h :: after)) (length before) = Some (server_choice h enabled).
+Proof.
+  rewrite conn_choices_nth, nth_error_app2 by apply le_n. rewrite PeanoNat.Nat.sub_diag. reflexivity.
+Qed.
+
+Lemma conn_choices_cached_refuted :
+  exists enabled h1 h2 c items q,
+    nth_error (conn_choices_cached enabled [h1; h2]) 1 = Some (Some (Some c)) /\
+    parse_items h2 = Some items /\ In (c, q) items /\ qpos q = false.
+Proof.
+  exists [[103; 122; 105; 112]], (Some [103; 122; 105; 112]), (Some [103; 122; 105; 112; 59; 113; 61; 48]),
+         [103; 122; 105; 112], [([103; 122; 105; 112], QVal false 0)], (QVal false 0).
+  vm_compute. repeat split; auto.
+Qed.
